@@ -11,6 +11,7 @@ from __future__ import annotations
 
 import fractions
 import math
+import os
 import time
 from typing import Any, Callable
 
@@ -88,8 +89,11 @@ class Path:
 
 
 class Explorer:
-    def __init__(self, assumptions=(), max_paths=2000, max_depth=400, timeout_ms=DEFAULT_TIMEOUT_MS):
+    def __init__(self, assumptions=(), max_paths=2000, max_depth=400, timeout_ms=DEFAULT_TIMEOUT_MS, max_seconds=None):
         self.assumptions = list(assumptions)
+        # wall-clock budget of one exploration: exceeding it is a harness error (never a verdict)
+        self.max_seconds = float(os.environ.get("SYMX_EXPLORE_BUDGET_S", "1500")) if max_seconds is None else max_seconds
+        self._t0 = time.time()
         self.max_paths = max_paths
         self.max_depth = max_depth
         self.timeout_ms = timeout_ms
@@ -126,6 +130,8 @@ class Explorer:
             return d
         if len(p.decisions) >= self.max_depth:
             raise BudgetExceeded(f"more than {self.max_depth} decisions on one path")
+        if time.time() - self._t0 > self.max_seconds:
+            raise BudgetExceeded(f"exploration took more than {self.max_seconds:.0f} s")
         s = self._solver
         r_true = _timed_check(s, cond)
         r_false = _timed_check(s, z3.Not(cond))
@@ -165,6 +171,7 @@ class Explorer:
         global _CUR
         paths: list[Path] = []
         self._work = [([], {})]
+        self._t0 = time.time()
         while self._work:
             if len(paths) >= self.max_paths:
                 raise BudgetExceeded(f"more than {self.max_paths} paths")
